@@ -237,13 +237,24 @@ def cover_walks(edges, init, key=lambda s: json.dumps(s, sort_keys=True), maxlen
     traverse every edge at least once (greedy Chinese-postman style: follow an unvisited
     out-edge while one exists, otherwise BFS to the nearest state that has one)."""
     from collections import defaultdict, deque
+    # intern the state keys once (serialising a state on every BFS step dominates otherwise)
+    ids = {}
+
+    def sid(st):
+        k = key(st)
+        v = ids.get(k)
+        if v is None:
+            v = ids[k] = len(ids)
+        return v
+    srck = [sid(e["src"]) for e in edges]
+    dstk = [sid(e["dst"]) for e in edges]
     out = defaultdict(list)
-    for i, e in enumerate(edges):
-        out[key(e["src"])].append(i)
+    for i in range(len(edges)):
+        out[srck[i]].append(i)
     unvisited = set(range(len(edges)))
     un_out = {k: set(v) for k, v in out.items()}
     walks = []
-    k0 = key(init)
+    k0 = sid(init)
 
     def bfs(start):
         # shortest path (list of edge idx) from start to a state with an unvisited out-edge
@@ -259,7 +270,7 @@ def cover_walks(edges, init, key=lambda s: json.dumps(s, sort_keys=True), maxlen
                     s = ps
                 return list(reversed(path))
             for ei in out.get(s, ()):
-                d = key(edges[ei]["dst"])
+                d = dstk[ei]
                 if d not in seen:
                     seen[d] = (s, ei)
                     dq.append(d)
@@ -280,12 +291,12 @@ def cover_walks(edges, init, key=lambda s: json.dumps(s, sort_keys=True), maxlen
                     break
                 for pi in path:
                     walk.append(edges[pi])
-                    cur = key(edges[pi]["dst"])
+                    cur = dstk[pi]
                 continue
             cand.discard(ei)
             unvisited.discard(ei)
             walk.append(edges[ei])
-            cur = key(edges[ei]["dst"])
+            cur = dstk[ei]
         if not walk:
             # unreachable leftovers (should not happen: every emitted edge is reachable)
             raise Broken("edge cover: %d edges unreachable from init" % len(unvisited))
